@@ -211,6 +211,26 @@ func main() {
 					reorg(r, cfg, path, k1, k2, keep)
 				}
 			}
+			// unwind: with a 2-block cache, remove tips down to the finalized height; the cached tip must
+			// always be the block the height index names
+			ucfg := cfg
+			ucfg.MaxBlockCache = 2
+			if un, err := node.BuildPath(ucfg, path); err == nil {
+				for un.Tip() != nil && un.Tip().Header.Height > ucfg.GenesisHeight {
+					tip := un.Tip()
+					if err := un.Exec.VerifDeleteBlock(tip, false); err != nil {
+						break // refused at the finalized height
+					}
+					r.Add("transitions", 1)
+					r.Add("unwind_deletes", 1)
+					want, err := un.Chain.DataAccess().GetBlockHeaderByHeight(tip.Header.Height - 1)
+					if un.Tip() == nil || err != nil || !bytes.Equal(un.Tip().Header.ID, want.ID) {
+						r.Violation("unwind-cached-tip-lost", fmt.Sprintf("after removing %d-th block of path %v with a 2-block cache the cached tip is missing or wrong", tip.Header.Height, path), caseT{path, -1, false, "unwind", keep})
+						break
+					}
+				}
+				un.Close()
+			}
 			// idempotence: three apply/delete rounds of the same block
 			n.Close()
 			n, _ = node.BuildPath(cfg, path)
